@@ -457,6 +457,10 @@ var c04Hands = []c04Hand{
 	{"c04:directive-order", "{namespace h}\n/** @param s */\n{template .t}{$s|truncate:4,false}{/template}\n", `{"s":"a<b>c"}`},
 	{"c04:genname-collision", "{namespace h}\n{template .t}{let $x1: 'a' /}{let $a: 1/}{let $b: 1/}{let $c: 1/}{let $d: 1/}{let $e: 1/}{let $f: 1/}{let $g: 1/}{let $h: 1/}{let $i: 1/}{let $x: 'b' /}{$x1}{$x}{$a}{$b}{$c}{$d}{$e}{$f}{$g}{$h}{$i}{/template}\n", `{}`},
 	{"c04:genname-collision", "{namespace h}\n/** @param l */\n{template .t}{let $xIndex2: 'v' /}{foreach $x in $l}{$xIndex2}{index($x)}{/foreach}{let $param4: 'p' /}{call .u}{param a}{$param4}{/param}{/call}{/template}\n/** @param a */\n{template .u}{$a}{/template}\n", `{"l":[7,8]}`},
+	{"c04:ok:loop-let-shadow", "{namespace h}\n/** @param y\n @param l */\n{template .t}{foreach $x in $l}[{$y}:{let $y: $x /}{$y}]{/foreach}{$y}{/template}\n", `{"y":"default","l":["a","b","c"]}`},
+	{"c04:ok:loop-let-shadow", "{namespace h}\n/** @param y */\n{template .t}{for $i in range(3)}[{$y}:{let $y: $i * 10 /}{$y}]{/for}{$y}{/template}\n", `{"y":7}`},
+	{"c04:ok:loop-let-shadow", "{namespace h}\n/** @param l */\n{template .t}{foreach $a in $l}{foreach $a in $l}{$a}{if isLast($a)}!{/if}{/foreach}{if isLast($a)}L{/if}{index($a)};{/foreach}{/template}\n", `{"l":[1,2,3]}`},
+	{"c04:ok:loop-let-shadow", "{namespace h}\n/** @param l */\n{template .t}{foreach $a in $l}{if $a > 1}{let $b: $a /}{/if}{let $b: 0 /}{$b}{/foreach}{/template}\n", `{"l":[1,2,3]}`},
 	{"c04:undefined-print", "{namespace h}\n/** @param? s */\n{template .t}{$s}{/template}\n", `{}`},
 	{"c04:switch-mixed", "{namespace h}\n/** @param i */\n{template .t}{switch $i}{case '1'}S{case 1}I{default}D{/switch}{/template}\n", `{"i":1}`},
 	{"c04:plural-float", "{namespace h}\n/** @param n */\n{template .t}{msg desc=\"\"}{plural $n}{case 1}one{default}{$n} many{/plural}{/msg}{/template}\n", `{"n":1}`},
